@@ -263,9 +263,11 @@ process_ghash(IMB_MGR *state, IMB_JOB *job)
         /* copy initial tag value */
         memcpy(tag, job->u.GHASH._init_tag, job->auth_tag_output_len_in_bytes);
 
-        /* compute new tag value */
-        IMB_GHASH(state, job->u.GHASH._key, job->src + job->hash_start_src_offset_in_bytes,
-                  job->msg_len_to_hash_in_bytes, tag, sizeof(tag));
+        /* compute new tag value (GHASH of an empty message is the initial value) */
+        if (job->msg_len_to_hash_in_bytes != 0)
+                IMB_GHASH(state, job->u.GHASH._key,
+                          job->src + job->hash_start_src_offset_in_bytes,
+                          job->msg_len_to_hash_in_bytes, tag, sizeof(tag));
 
         memcpy(job->auth_tag_output, tag, job->auth_tag_output_len_in_bytes);
 #ifdef SAFE_DATA
